@@ -358,7 +358,7 @@ pub fn def() -> PropertyDef {
         rule: "random parameter objects built through the public builder in three setter orders: scheme incl. None, degree in {0,1,3,6,2^1..2^18}, 0..8 (occasionally 64) moduli from a pool of NTT-friendly primes of 2..60 bits, unfriendly primes, composites = 1 mod 2N, even values, 61-bit primes, 2, 3, arbitrary values and duplicates, plain modulus 0 / 2 / 2^k / multiple of a q_i / 61-bit / >= Q / batching prime / small, security level None/128/192/256 with standard degrees, both flags; exhaustive small universe N in {2,4,8}, one or two moduli 2..24 (thorough 2..64), t 2..12 (thorough 2..40), three schemes. Oracle: HeContext::new never panics; parameters_set implies an independently coded predicate on every level; rejected sets carry a specific error; accepted chains: link structure, prefix moduli, constants against big-integer definitions, qualifier flags, identifiers equal across independently built contexts (other setter order, after a serialization round trip) and collision-free over the run. Plus CoeffModulus::create / PlainModulus::batching / bfv_default outputs (deterministic Miller-Rabin, exact sizes, congruence, distinctness) and acceptance of library-generated sets. non-trivial: rejected beyond the first two rungs, or accepted with >= 2 levels.",
         assumptions: vec!["only the soundness direction (set => predicate) is asserted for arbitrary objects; completeness only for sets produced by the library's own generators", "collision freedom is over the generated universe, not SHA-256's domain"],
         subs: vec![
-            Sub::prop("random_parameter_objects", 40_000, 1_000_000, 0.3, parm_case, oracle).fuzzable(parm_decode, oracle), Sub::corpus("fuzz_corpus_params", "c13_params", parm_decode, oracle),
+            Sub::prop("random_parameter_objects", 120_000, 1_000_000, 0.3, parm_case, oracle).fuzzable(parm_decode, oracle), Sub::corpus("fuzz_corpus_params", "c13_params", parm_decode, oracle),
             Sub::enumerate("small_universe_exhaustive", universe, oracle),
             Sub::prop("generated_moduli", 1_500, 30_000, 0.3, |_| gen_case(), gen_oracle),
             Sub::enumerate("known_finding_probe", probe_cases, probe_oracle),
